@@ -121,8 +121,14 @@ class SimFlow(Flow):
         else:
             z = x
         f = self.inflate if inflate is None else float(inflate)
-        self.loc = z.mean(axis=0)
-        self.scale = z.std(axis=0) * f
+        loc, scale = z.mean(axis=0), z.std(axis=0) * f
+        if getattr(self, "_n_fits", 0) > 0:
+            # like a trainable model, a fit of an already fitted flow starts from where it is (training continues from the
+            # current weights): the result depends on the object's history, not on the data alone
+            loc = 0.75 * loc + 0.25 * self.loc
+            scale = np.sqrt(0.75 * scale**2 + 0.25 * self.scale**2)
+        self._n_fits = getattr(self, "_n_fits", 0) + 1
+        self.loc, self.scale = loc, scale
         return FlowHistory(training_loss=[0.0], validation_loss=[0.0])
 
     def _draw(self, n):
